@@ -447,7 +447,13 @@ fn minimise(ops: &[MemOp], real: &[MemOut], at: usize, key: &str) -> Option<Vec<
 }
 
 /// Run one sequence three ways. Returns the index of the first violation.
-pub fn check_seq(rep: &mut Report, drv: Option<&mut Driver>, ops: &[MemOp], origin: &str) -> Option<usize> {
+pub fn check_seq(
+    rep: &mut Report,
+    drv: Option<&mut Driver>,
+    ops: &[MemOp],
+    origin: &str,
+    reported: &mut std::collections::HashMap<String, usize>,
+) -> Option<usize> {
     let real = mem_run(ops);
     let text = show_ops(ops);
     let mut sh = Shadow::new();
@@ -463,7 +469,10 @@ pub fn check_seq(rep: &mut Report, drv: Option<&mut Driver>, ops: &[MemOp], orig
             if first.is_none() {
                 first = Some(i);
             }
-            if !keys_seen.contains(&key) {
+            // a few instances per kind of violation are enough (the report is capped)
+            let n = reported.entry(key.clone()).or_insert(0);
+            if !keys_seen.contains(&key) && *n < 3 {
+                *n += 1;
                 keys_seen.push(key.clone());
                 // a minimal history: what the failing operation depends on
                 let upto = match minimise(ops, &real, i, &key) {
@@ -490,29 +499,35 @@ pub fn check_seq(rep: &mut Report, drv: Option<&mut Driver>, ops: &[MemOp], orig
         if lean != real_s {
             let (l, r): (Vec<&str>, Vec<&str>) = (lean.split(' ').collect(), real_s.split(' ').collect());
             let at = l.iter().zip(&r).position(|(a, b)| a != b).unwrap_or(l.len().min(r.len()));
+            let n = reported.entry("model".into()).or_insert(0);
+            *n += 1;
+            if *n <= 5 {
             rep.mismatch(
                 "Lean memory model (generated from eval.rs) differs from the real Memory",
                 json!({"ops": show_ops(&ops[..ops.len().min(at + 1)]), "at": at,
                        "lean": l.get(at), "real": r.get(at), "origin": origin}),
             );
+            }
         }
     }
     first
 }
 
 pub fn run(rep: &mut Report, drv: &mut Option<Driver>, seed: u64, thorough: bool) {
+    let mut reported = std::collections::HashMap::new();
+    let reported = &mut reported;
     for size in 0..=24usize {
         let ops = table_for_size(size);
-        check_seq(rep, drv.as_mut(), &ops, &format!("boundary table, allocation of {size} byte(s)"));
+        check_seq(rep, drv.as_mut(), &ops, &format!("boundary table, allocation of {size} byte(s)"), reported);
     }
     for (i, ops) in frame_tables().into_iter().enumerate() {
-        check_seq(rep, drv.as_mut(), &ops, &format!("frame table #{i}"));
+        check_seq(rep, drv.as_mut(), &ops, &format!("frame table #{i}"), reported);
     }
-    let n = if thorough { 4000 } else { 300 };
+    let n = if thorough { 6000 } else { 1000 };
     for idx in 0..n {
         let mut p = Prng::for_case(seed, 2_000_000 + idx);
         let ops = random_seq(&mut p);
-        check_seq(rep, drv.as_mut(), &ops, &format!("random sequence (seed {seed}, index {idx})"));
+        check_seq(rep, drv.as_mut(), &ops, &format!("random sequence (seed {seed}, index {idx})"), reported);
     }
 }
 
@@ -522,5 +537,5 @@ pub fn replay(rep: &mut Report, ops_text: &str) {
     for (o, r) in ops.iter().zip(&real) {
         println!("{:<24} -> {}", show_ops(std::slice::from_ref(o)), show_out(r));
     }
-    check_seq(rep, None, &ops, "replay");
+    check_seq(rep, None, &ops, "replay", &mut std::collections::HashMap::new());
 }
